@@ -2,9 +2,10 @@ SPECIFICATION Spec
 CONSTANTS
   Scheds <- SchedsChain
   Blocking = {1}
+  Panicking = {}
   MaxNow = 4
   MaxStep = 2
-  MaxOps = 4
+  MaxOps = 3
   Chain = "skip"
   Variant = "ok"
 INVARIANTS Accepted ViewsAgree WaitGroupSane
